@@ -1010,3 +1010,216 @@ func freshLocal(pk *pkgT, cf *cfgx.Func, e ast.Expr) bool {
 	}
 	return false
 }
+
+// ---------------------------------------------------------------- MC1
+
+// RuleMC1: a uniqueness collection is never consulted to skip its own duplicate test.
+// Where an inserter refuses a second entry (`if X.Has(k) { return error }; X.Set(k, v)`), no
+// function on the way to that inserter may return success *because* the entry is already
+// there without having gone through the inserter: "found means done" and "found means
+// duplicate" are contradictory beliefs about one collection, and the shortcut turns the
+// second declaration (the same macro pasted twice, the same file included twice) into a
+// silent success.
+func RuleMC1(c *Ctx) {
+	sc := c.Run.Begin("MC1", "for every collection whose inserter rejects an existing key, no function that reaches that inserter returns success under the fact 'the key is already present' without having called the inserter", 5)
+	defer sc.End()
+	// collection fields: selector X.f where the type of f (or what it points to) has methods Set and Has
+	isColl := func(t types.Type) bool {
+		ms := types.NewMethodSet(t)
+		if ms.Lookup(nil, "Set") == nil {
+			ms = types.NewMethodSet(types.NewPointer(t))
+		}
+		hasSet, hasHas := false, false
+		for i := 0; i < ms.Len(); i++ {
+			switch ms.At(i).Obj().Name() {
+			case "Set":
+				hasSet = true
+			case "Has":
+				hasHas = true
+			}
+		}
+		return hasSet && hasHas
+	}
+	collOf := func(info *types.Info, call *ast.CallExpr) (*types.Var, string) {
+		sel, ok := ast.Unparen(call.Fun).(*ast.SelectorExpr)
+		if !ok {
+			return nil, ""
+		}
+		rsel, ok := ast.Unparen(sel.X).(*ast.SelectorExpr)
+		if !ok {
+			return nil, ""
+		}
+		fld, ok := info.ObjectOf(rsel.Sel).(*types.Var)
+		if !ok || !fld.IsField() || !isColl(fld.Type()) {
+			return nil, ""
+		}
+		return fld, sel.Sel.Name
+	}
+	// found-fact on collection X: `X.Has(k)` true, or ok (true) of `_, ok := X.Get(k)`
+	foundFact := func(pk *pkgT, cf *cfgx.Func, fa cfgx.Fact) *types.Var {
+		info := pk.TypesInfo
+		e := ast.Unparen(fa.Expr)
+		if !fa.Truth {
+			return nil
+		}
+		if call, ok := e.(*ast.CallExpr); ok {
+			if f, m := collOf(info, call); f != nil && m == "Has" {
+				return f
+			}
+		}
+		if id, ok := e.(*ast.Ident); ok {
+			obj := info.ObjectOf(id)
+			var out *types.Var
+			ast.Inspect(cf.Body, func(n ast.Node) bool {
+				as, isAs := n.(*ast.AssignStmt)
+				if !isAs || len(as.Lhs) != 2 || len(as.Rhs) != 1 {
+					return true
+				}
+				if l, isId := as.Lhs[1].(*ast.Ident); isId && info.ObjectOf(l) == obj {
+					if call, isCall := ast.Unparen(as.Rhs[0]).(*ast.CallExpr); isCall {
+						if f, m := collOf(info, call); f != nil && m == "Get" {
+							out = f
+						}
+					}
+				}
+				return true
+			})
+			return out
+		}
+		return nil
+	}
+	isSuccess := func(info *types.Info, ret *ast.ReturnStmt) bool {
+		if len(ret.Results) == 0 {
+			return false
+		}
+		last := ret.Results[len(ret.Results)-1]
+		tv, ok := info.Types[last]
+		return ok && tv.IsNil() && isErrorLike(info.TypeOf(last)) || (ok && tv.IsNil())
+	}
+	// rejecting inserters per collection
+	inserters := map[*types.Var]map[*types.Func]bool{}
+	c.P.Funcs(func(pk *pkgT, fd *ast.FuncDecl) {
+		info := pk.TypesInfo
+		self, _ := info.Defs[fd.Name].(*types.Func)
+		if self == nil {
+			return
+		}
+		sets := map[*types.Var]bool{}
+		ast.Inspect(fd.Body, func(n ast.Node) bool {
+			if call, ok := n.(*ast.CallExpr); ok {
+				if f, m := collOf(info, call); f != nil && m == "Set" {
+					sets[f] = true
+				}
+			}
+			return true
+		})
+		if len(sets) == 0 {
+			return
+		}
+		cf := c.CFG(pk, fd.Body)
+		inspectNoLit(fd.Body, func(n ast.Node) bool {
+			ret, ok := n.(*ast.ReturnStmt)
+			if !ok || len(ret.Results) == 0 || isSuccess(info, ret) {
+				return true
+			}
+			for _, fa := range cf.FactsAt(ret) {
+				if x := foundFact(pk, cf, fa); x != nil && sets[x] {
+					if inserters[x] == nil {
+						inserters[x] = map[*types.Func]bool{}
+					}
+					inserters[x][self] = true
+				}
+			}
+			return true
+		})
+	})
+	if len(inserters) == 0 {
+		sc.Undecided("inserters", "-", "no duplicate-rejecting inserter found")
+		return
+	}
+	n := 0
+	c.P.Funcs(func(pk *pkgT, fd *ast.FuncDecl) {
+		info := pk.TypesInfo
+		self, _ := info.Defs[fd.Name].(*types.Func)
+		// which collections' inserters does this function reach (itself, or by a static call, depth 2)?
+		reach := map[*types.Var][]*types.Func{}
+		for x, fs := range inserters {
+			for f := range fs {
+				if f == self {
+					reach[x] = append(reach[x], f)
+				}
+			}
+		}
+		for _, g := range staticCallees(c.P, info, fd.Body) {
+			for x, fs := range inserters {
+				if fs[g] {
+					reach[x] = append(reach[x], g)
+					continue
+				}
+				if gd := c.P.Decl(g); gd != nil {
+					for _, h := range staticCallees(c.P, c.P.PkgOfDecl(gd).TypesInfo, gd.Body) {
+						if fs[h] {
+							reach[x] = append(reach[x], g)
+						}
+					}
+				}
+			}
+		}
+		if len(reach) == 0 {
+			return
+		}
+		cf := c.CFG(pk, fd.Body)
+		for x, via := range reach {
+			n++
+			key := fmt.Sprintf("%s:%s", x.Name(), c.P.DeclName(fd))
+			callsInserter := func(nd ast.Node) bool {
+				hit := false
+				ast.Inspect(nd, func(y ast.Node) bool {
+					if call, ok := y.(*ast.CallExpr); ok {
+						g := Callee(info, call)
+						for _, v := range via {
+							if g == v {
+								hit = true
+							}
+						}
+						if f, m := collOf(info, call); f == x && m == "Set" {
+							hit = true
+						}
+					}
+					return true
+				})
+				return hit
+			}
+			bad := ""
+			inspectNoLit(fd.Body, func(nd ast.Node) bool {
+				ret, ok := nd.(*ast.ReturnStmt)
+				if !ok || !isSuccess(info, ret) {
+					return true
+				}
+				found := false
+				for _, fa := range cf.FactsAt(ret) {
+					if foundFact(pk, cf, fa) == x {
+						found = true
+					}
+				}
+				if !found {
+					return true
+				}
+				// a return statement that itself calls the inserter (return X.add(...)) is fine
+				if callsInserter(ret) || cf.MustAt(ret, nil, callsInserter, nil) {
+					return true
+				}
+				bad = c.P.Pos(ret.Pos())
+				return true
+			})
+			if bad == "" {
+				sc.Holds(key, c.P.Pos(fd.Pos()), "no success return that skips the inserter because the key is present")
+			} else {
+				sc.Violation(key, c.P.Pos(fd.Pos()), "the success return at "+bad+" is taken because "+x.Name()+" already holds the key, and skips the inserter whose job is to reject exactly that: a second declaration of the same name (the same macro pasted twice, a file included twice) is silently accepted")
+			}
+		}
+	})
+	if n == 0 {
+		sc.Undecided("sites", "-", "no function reaching a duplicate-rejecting inserter")
+	}
+}
